@@ -188,6 +188,14 @@ def r14_3(ctx, R):
                 if re.search(r"(^|[<( ])core::task::Waker($|[>,) ])", f["ty"]):
                     if p == pop_ret and f["ty"] == "core::mem::ManuallyDrop<core::task::Waker>":
                         continue
+                    # the same borrowed waker carried on by a transient value (an enum a helper returns to the drain loop): a
+                    # type that no struct, enum or static of the crate stores and that is not reachable from outside cannot keep a
+                    # waker between polls
+                    stored = adt.get("effective_pub") or any(
+                        re.search(r"(^|[<( ,\[])%s($|[<>,) \]])" % re.escape(p), g["ty"])
+                        for q, other in ctx.facts.adts.items() if q != p for w in other["variants"] for g in w["fields"])
+                    if f["ty"] == "core::mem::ManuallyDrop<core::task::Waker>" and not stored:
+                        continue
                     bad.append("%s.%s: %s" % (p, f["name"], f["ty"]))
     ctx.ob("R14.3", "<crate>", "no-Waker-typed-field", not bad, "", str(bad))
     clones = []
